@@ -68,13 +68,22 @@ def Rb.open (S page : Nat) (ow : Bool) (useSem : Bool) : Rb :=
   { W := W, mem := (Array.replicate (4*W) 0).setIfInBounds 0 5, rp := 0, wp := 0, ow := ow,
     sem := if useSem then some 0 else none }
 
-/-- `qb_rb_space_free`, in bytes -/
-def Rb.spaceFree (r : Rb) : Nat :=
+/-- `qb_rb_space_free`, in bytes.  With `read_pt == write_pt` the ring is empty; a ring with a
+    notifier that reports a positive count is then nevertheless taken for full -- except, in the
+    code as it is now (`owFix = true`, repair of defect D31), in overwrite mode, where the count
+    also counts the chunks the writer has overwritten and says nothing about the ring being full.
+    `owFix = false` is the code before that repair, kept for the refutation witness
+    `ow_sem_overcount_witness`. -/
+def Rb.spaceFreeGen (owFix : Bool) (r : Rb) : Nat :=
   4 * (if r.wp > r.rp then r.rp + r.W - r.wp - 1
        else if r.wp < r.rp then r.rp - r.wp - 1
+       else if owFix && r.ow then r.W
        else match r.sem with
-            | some (n+1) => 0
+            | some (_+1) => 0
             | _ => r.W)
+
+/-- `qb_rb_space_free` as it is now -/
+def Rb.spaceFree (r : Rb) : Nat := r.spaceFreeGen true
 
 /-- `qb_rb_space_used`, in bytes -/
 def Rb.spaceUsed (r : Rb) : Nat :=
@@ -107,23 +116,19 @@ def Rb.reclaim (r : Rb) : Rb × Bool :=
     let r2 := r1.setMagic r.rp DEAD
     ({ r2 with rp := new }, true)
 
-/-- `rb->notifier.timedwait_fn(rb->notifier.instance, 0)` with the result ignored: takes one
-    notification back if there is one (`sem_trywait`); nothing without a semaphore -/
-def Rb.unpost (r : Rb) : Rb := { r with sem := r.sem.map (· - 1) }
-
 /-- the overwrite loop of `qb_rb_chunk_alloc`: the state when the loop is left (the reclaims
     persist also when the allocation fails) and whether room was found.  `fuel` bounds the
     number of iterations (never exhausted on a well-formed ring, see `Lemmas/RingOw.lean`).
-    `takeBack = true` is the code as it is now (the notification of every chunk dropped by the
-    loop is taken back); `false` is the code before the repair of defect D31, kept for the
-    refutation witness `ow_sem_overcount_witness`. -/
-def Rb.makeRoomGen (takeBack : Bool) (r : Rb) (len : Nat) : Nat → Rb × Bool
-  | 0 => (r, !decide (r.spaceFree < len + MARGIN))
+    The notification posted for a dropped chunk is NOT taken back (the count of an overwrite ring
+    with a semaphore counts overwritten chunks too; tests/check_rb.c relies on it).
+    `owFix`: see `spaceFreeGen`. -/
+def Rb.makeRoomGen (owFix : Bool) (r : Rb) (len : Nat) : Nat → Rb × Bool
+  | 0 => (r, !decide (r.spaceFreeGen owFix < len + MARGIN))
   | fuel+1 =>
-    if r.spaceFree < len + MARGIN then
+    if r.spaceFreeGen owFix < len + MARGIN then
       match r.reclaim with
       | (_, false) => (r, false)
-      | (r', true) => Rb.makeRoomGen takeBack (if takeBack then r'.unpost else r') len fuel
+      | (r', true) => Rb.makeRoomGen owFix r' len fuel
     else (r, true)
 
 def Rb.makeRoom (r : Rb) (len : Nat) (fuel : Nat) : Rb × Bool := r.makeRoomGen true len fuel
@@ -132,12 +137,12 @@ def Rb.makeRoom (r : Rb) (len : Nat) (fuel : Nat) : Rb × Bool := r.makeRoomGen 
 def Rb.allocHdr (r : Rb) : Rb := (({ r with mem := wr32 r.mem r.wp 0 }) : Rb).setMagic r.wp ALLOC
 
 /-- `qb_rb_chunk_alloc`: the state afterwards and the `errno` if it returned NULL -/
-def Rb.allocGen (takeBack : Bool) (r : Rb) (len : Nat) : Rb × Option Err :=
+def Rb.allocGen (owFix : Bool) (r : Rb) (len : Nat) : Rb × Option Err :=
   if r.ow then
-    match r.makeRoomGen takeBack len r.W with
+    match r.makeRoomGen owFix len r.W with
     | (r', false) => (r', some .einval)
     | (r', true) => (r'.allocHdr, none)
-  else if r.spaceFree < len + MARGIN then (r, some .eagain)
+  else if r.spaceFreeGen owFix < len + MARGIN then (r, some .eagain)
   else (r.allocHdr, none)
 
 def Rb.alloc (r : Rb) (len : Nat) : Rb × Option Err := r.allocGen true len
@@ -172,9 +177,9 @@ def Rb.commitGen (clearNext : Bool) (r : Rb) (len : Nat) : Rb :=
 
 def Rb.commit (r : Rb) (len : Nat) : Rb := r.commitGen true len
 
-/-- `qb_rb_chunk_write` (`clearNext`, `takeBack`: see `commitGen`, `makeRoomGen`) -/
-def Rb.writeGen (clearNext takeBack : Bool) (r : Rb) (data : List Nat) : Rb × Except Err Nat :=
-  match r.allocGen takeBack data.length with
+/-- `qb_rb_chunk_write` (`clearNext`, `owFix`: see `commitGen`, `spaceFreeGen`) -/
+def Rb.writeGen (clearNext owFix : Bool) (r : Rb) (data : List Nat) : Rb × Except Err Nat :=
+  match r.allocGen owFix data.length with
   | (r', some e) => (r', .error e)
   | (r1, none) => ((r1.fill data).commitGen clearNext data.length, .ok data.length)
 
